@@ -214,6 +214,9 @@ pub fn check_row_view<F: FrameAccess + ?Sized>(fa: &F, r: usize, fr: &peppi::fra
             return Err(f("items-mismatch", "row-view.items".into(), format!("row {} has no item offsets", r)));
         }
         let (s, e) = (offs[r] as usize, offs[r + 1] as usize);
+        if e < s {
+            return Err(f("items-mismatch", "item_offset".into(), format!("row {}: offsets decrease ({} then {})", r, s, e)));
+        }
         if items.len() != e - s {
             return Err(f("items-mismatch", "row-view.items".into(), format!("row {}: view has {} items, offsets delimit {}", r, items.len(), e - s)));
         }
